@@ -404,7 +404,7 @@ def current_spared(R, ctx):
             return Agg('std::option::Option', 'None', [])
         return NotImplemented
     models[r'as std::iter::Iterator>::next$'] = m_next
-    models[r'^core::char::methods::<impl char>::is_ascii_digit$'] = lambda I, st, fr, t, args, name: Const(_deref_const(I, st, args[0]).isdigit())
+    models[r'^(core|std)::char::methods::<impl char>::is_ascii_digit$'] = lambda I, st, fr, t, args, name: Const(_deref_const(I, st, args[0]).isdigit())
     I = FDI(f, models=models)
     rows = I.run(fb.path, args=[Ref_to(I, Agg('writers::file_log_writer::infix_filter::InfixFilter', 'Numbrs', [])), None])
     # simpler: run with self fixed through setup
